@@ -358,7 +358,7 @@ func newMatcher(unknown string, threshold float64) *matcher {
 // findMatches takes a known text and finds all potential instances of it in
 // the unknown text. The resulting matches can then filtered to determine which
 // are the best matches.
-func (m *matcher) findMatches(known *knownValue) {
+func (m *matcher) findMatches(known *knownValue, set *searchset.SearchSet) {
 	var mrs []searchset.MatchRanges
 	if all := known.reValue.FindAllStringIndex(m.normUnknown, -1); all != nil {
 		// We found exact matches. Just use those!
@@ -375,19 +375,19 @@ func (m *matcher) findMatches(known *knownValue) {
 
 			mrs = append(mrs, searchset.MatchRanges{{
 				SrcStart:    0,
-				SrcEnd:      len(known.set.Tokens),
+				SrcEnd:      len(set.Tokens),
 				TargetStart: start,
 				TargetEnd:   end + 1,
 			}})
 		}
 	} else {
 		// No exact match. Perform a more thorough match.
-		mrs = searchset.FindPotentialMatches(known.set, m.unknown)
+		mrs = searchset.FindPotentialMatches(set, m.unknown)
 	}
 
 	var wg sync.WaitGroup
 	for _, mr := range mrs {
-		if !m.withinConfidenceThreshold(known.set, mr) {
+		if !m.withinConfidenceThreshold(set, mr) {
 			continue
 		}
 
@@ -435,18 +435,32 @@ func (c *Classifier) multipleMatch(unknown string) *pq.Queue {
 	wg.Add(len(kvals))
 	for _, known := range kvals {
 		go func(known *knownValue) {
-			if known.set == nil {
-				k := searchset.New(known.normalizedValue, searchset.DefaultGranularity)
-				c.muValues.Lock()
-				c.values[known.key].set = k
-				c.muValues.Unlock()
-			}
-			m.findMatches(known)
+			m.findMatches(known, c.searchSet(known))
 			wg.Done()
 		}(known)
 	}
 	wg.Wait()
 	return m.queue
+}
+
+// searchSet returns the search set of a known value, computing and storing it
+// on first use. The set field is shared between concurrent calls, so it is
+// only read and written with muValues held.
+func (c *Classifier) searchSet(known *knownValue) *searchset.SearchSet {
+	c.muValues.RLock()
+	set := known.set
+	c.muValues.RUnlock()
+	if set != nil {
+		return set
+	}
+
+	k := searchset.New(known.normalizedValue, searchset.DefaultGranularity)
+	c.muValues.Lock()
+	defer c.muValues.Unlock()
+	if known.set == nil {
+		known.set = k
+	}
+	return known.set
 }
 
 // levDist runs the Levenshtein Distance algorithm on the known and unknown
